@@ -21,7 +21,7 @@ for sd in $D/seeded/$prop-*; do
   (cd $S/r && GOFLAGS=-mod=mod timeout 300 go test -vet=off -count=1 -run "Seed|seed|SEED|Demo|ZZ" ./$sub/ > $S/demo.log 2>&1) || demofail="$demofail $(basename $sd)"
   rm -f $S/r/$sub/zz_seed_demo_test.go
 done
-GOFLAGS=-mod=vendor $D/checker/bin/pgv -repo $S/r -verif $S/v -prop all -tier quick > $S/out.txt 2>&1
+GOFLAGS=-mod=vendor ${PGV:-$D/checker/bin/pgv} -repo $S/r -verif $S/v -prop all -tier quick > $S/out.txt 2>&1
 fired=$(grep -o "^VIOLATION property=C[0-9]*" $S/out.txt | sed 's/VIOLATION property=//' | tr '\n' ',')
 echo "suite=$suite demofail=[$demofail] fired=[$fired]"
 grep -E "^\s+(violated|undecided)" $S/out.txt | cut -c1-420 | head -${NEULINES:-8}
